@@ -14,9 +14,13 @@ variable {κ : Type}
 
 /-- what the parser needs to know about a sink flag "an aux-info request is pending": only a start-tag
 hint answered "lex" can raise it -/
-structure PendLaw (ops : SinkOps κ) (Pend : κ → Bool) : Prop where
+structure PendLaw (ops : SinkOps κ) (Pend : κ → Bool) (K : Bool) : Prop where
+  /-- a hint answered "scan" never raises the flag -/
   start : ∀ n ns k, Pend k = false → (ops.startTagHint n ns k).2 = .ok .scan → Pend (ops.startTagHint n ns k).1 = false
-  end_ : ∀ n k, Pend k = false → Pend (ops.endTagHint n k).1 = false
+  end_ : ∀ n k, Pend k = false → (ops.endTagHint n k).2 = .ok .scan → Pend (ops.endTagHint n k).1 = false
+  /-- only a hint of kind `K` (`true`: start tag, `false`: end tag) can raise it -/
+  otherE : K = true → ∀ n k, Pend k = false → Pend (ops.endTagHint n k).1 = false
+  otherS : K = false → ∀ n ns k, Pend k = false → Pend (ops.startTagHint n ns k).1 = false
 
 def EndOk (ab : Ab) (iet : Bool) : Prop := (ab = .outClean ∨ ab = .inTag) → iet = false
 
@@ -38,9 +42,9 @@ theorem LabMid.congr {Pend : κ → Bool} {v : Option TextType} {ab : Ab} {m m' 
   ⟨h1, by rw [h2]; exact h.tt, by rw [h3]; exact h.endc, by rw [h4]; exact h.pend⟩
 
 section
-variable {env : Env κ} {inp : Bytes} {Pend : κ → Bool}
+variable {env : Env κ} {inp : Bytes} {Pend : κ → Bool} {K : Bool}
 
-theorem scanEmitHint_lab (hlaw : PendLaw env.ops Pend) (c : Common) (s : ScanRegs) (x : Ctx κ) (ts : Nat) (ie : Bool)
+theorem scanEmitHint_lab (hlaw : PendLaw env.ops Pend K) (c : Common) (s : ScanRegs) (x : Ctx κ) (ts : Nat) (ie : Bool)
     (hp : Pend x.sink = false) (hnone : (scanEmitHint env inp c s x ts ie).2 = none) :
     ∃ c' x', (scanEmitHint env inp c s x ts ie).1 = ⟨c', .scanner s, x'⟩ ∧ c'.lastTextType = c.lastTextType ∧
       Pend x'.sink = false := by
@@ -57,7 +61,7 @@ theorem scanEmitHint_lab (hlaw : PendLaw env.ops Pend) (c : Common) (s : ScanReg
       | ok d =>
         cases d with
         | lex => simp [hr] at hnone
-        | scan => exact ⟨_, _, rfl, rfl, hlaw.end_ _ _ hp⟩
+        | scan => exact ⟨_, _, rfl, rfl, hlaw.end_ _ _ hp hr⟩
     | false =>
       simp only [Bool.false_eq_true, if_false] at hnone ⊢
       cases hr : (env.ops.startTagHint name x.sim.currentNs x.sink).2 with
@@ -67,7 +71,7 @@ theorem scanEmitHint_lab (hlaw : PendLaw env.ops Pend) (c : Common) (s : ScanReg
         | lex => simp [hr] at hnone
         | scan => exact ⟨_, _, rfl, rfl, hlaw.start _ _ _ hp hr⟩
 
-theorem scanFinishTagName_lab (hlaw : PendLaw env.ops Pend) (c : Common) (s : ScanRegs) (x : Ctx κ)
+theorem scanFinishTagName_lab (hlaw : PendLaw env.ops Pend K) (c : Common) (s : ScanRegs) (x : Ctx κ)
     (hp : Pend x.sink = false) (hnone : (scanFinishTagName env inp c s x).2 = none) :
     ∃ c' s' x', (scanFinishTagName env inp c s x).1 = ⟨c', .scanner s', x'⟩ ∧ c'.lastTextType = c.lastTextType ∧
       s'.isInEndTag = false ∧ Pend x'.sink = false := by
@@ -98,7 +102,7 @@ theorem EndOk_unreach_false {ab : Ab} {a : ActName} {ab' : Ab} (h : phAct a ab =
   intro he; subst he; cases a <;> simp [phAct] at h
 
 /-- one action of a scanner machine on the label invariants -/
-theorem act_lab (hlaw : PendLaw env.ops Pend) (a : ActName) (v : Option TextType) (ab ab' : Ab)
+theorem act_lab (hlaw : PendLaw env.ops Pend K) (a : ActName) (v : Option TextType) (ab ab' : Ab)
     (hph : phAct a ab = some ab') (m : M κ) (h : LabMid Pend v ab m)
     (hsig : silentAct a = true ∨ (act env a inp m).2 = none) :
     LabMid Pend (ttAct a v) ab' (act env a inp m).1 := by
@@ -152,7 +156,7 @@ theorem act_lab (hlaw : PendLaw env.ops Pend) (a : ActName) (v : Option TextType
     subst this
     exact ⟨rfl, h2, h3, h4⟩
 
-theorem runCalls_lab (hlaw : PendLaw env.ops Pend) (calls : List Call) (v : Option TextType) (ab ab' : Ab)
+theorem runCalls_lab (hlaw : PendLaw env.ops Pend K) (calls : List Call) (v : Option TextType) (ab ab' : Ab)
     (hph : phCalls calls ab = some ab') (hq : callsOk calls = true) (m : M κ) (h : LabMid Pend v ab m)
     (hnone : (runCalls env inp calls m).2 = none) :
     LabMid Pend (ttCalls calls v) ab' (runCalls env inp calls m).1 := by
@@ -222,7 +226,7 @@ def LabPost (TT : TLabels) (P : PLabels) (Pend : κ → Bool) (r : M κ × Optio
   | _ => True
 
 section
-variable {env : Env κ} {inp : Bytes} {Pend : κ → Bool} {TT : TLabels} {P : PLabels}
+variable {env : Env κ} {inp : Bytes} {Pend : κ → Bool} {K : Bool} {TT : TLabels} {P : PLabels}
 
 theorem applyTrans_labcore (t : Trans) (m : M κ) :
     (applyTrans env t m).1.isScanner = m.isScanner ∧ (applyTrans env t m).1.c.lastTextType = m.c.lastTextType ∧
@@ -232,7 +236,7 @@ theorem applyTrans_labcore (t : Trans) (m : M κ) :
   · refine ⟨?_, ?_, ?_, ?_⟩ <;> first | rfl | trivial
   · split <;> (refine ⟨?_, ?_, ?_, ?_⟩ <;> first | rfl | trivial)
 
-theorem runSeq_lab (hlaw : PendLaw env.ops Pend) (htt : TextTypeOk env.tbl TT = true) (q : ActSeq) (self : StateId)
+theorem runSeq_lab (hlaw : PendLaw env.ops Pend K) (htt : TextTypeOk env.tbl TT = true) (q : ActSeq) (self : StateId)
     (hp : seqOkP env.tbl P self q = true)
     (ht : ttTransOk env.tbl TT self (ttCalls q.calls (TT.at self)) q.trans = true)
     (m : M κ) (h : LabMid Pend (TT.at self) (P.at self) m) (hst : m.c.state = self)
@@ -312,7 +316,7 @@ structure ArmLab (e : Env κ) (T : TLabels) (Q : PLabels) (self : StateId) (a : 
   ph : bodyOkP e.tbl Q self a.body = true
   tt : ∀ q ∈ a.body.seqs, ttTransOk e.tbl T self (ttCalls q.calls (T.at self)) q.trans = true
 
-theorem runBody_lab (hlaw : PendLaw env.ops Pend) (htt : TextTypeOk env.tbl TT = true) (a : Arm) (self : StateId)
+theorem runBody_lab (hlaw : PendLaw env.ops Pend K) (htt : TextTypeOk env.tbl TT = true) (a : Arm) (self : StateId)
     (ha : ArmLab env TT P self a) (m : M κ) (h : LabMid Pend (TT.at self) (P.at self) m) (hst : m.c.state = self)
     (hnone : (runBody env inp a.body m).2.1 = none) :
     LabInv TT P Pend (runBody env inp a.body m).1 ∧
@@ -359,7 +363,7 @@ theorem LabPost_of_sig {r : M κ × Option Signal} (h1 : r.2 ≠ none) (h2 : Sig
   · rename_i h; simp [h, Signal.isEnd] at h2
   · trivial
 
-theorem finishArm_lab (hlaw : PendLaw env.ops Pend) (htt : TextTypeOk env.tbl TT = true) (a : Arm) (self : StateId)
+theorem finishArm_lab (hlaw : PendLaw env.ops Pend K) (htt : TextTypeOk env.tbl TT = true) (a : Arm) (self : StateId)
     (ha : ArmLab env TT P self a) (m : M κ) (h : LabMid Pend (TT.at self) (P.at self) m) (hst : m.c.state = self) :
     LabPost TT P Pend (finishArm inp (runBody env inp a.body m)) := by
   have hS := (runBody_scan (env := env) (inp := inp) a.body m h.scan)
@@ -391,7 +395,7 @@ theorem LabMid.move {v : Option TextType} {ab : Ab} {m m' : M κ} (h : LabMid Pe
     LabMid Pend v ab m' :=
   h.congr (by rw [h1]; exact h.scan) h2 h3 (by rw [h4])
 
-theorem runSeqArms_lab (hlaw : PendLaw env.ops Pend) (htt : TextTypeOk env.tbl TT = true) (self : StateId)
+theorem runSeqArms_lab (hlaw : PendLaw env.ops Pend K) (htt : TextTypeOk env.tbl TT = true) (self : StateId)
     (ch : Option UInt8) (arms : List Arm) (hsub : ∀ a ∈ arms, ArmLab env TT P self a) (m : M κ)
     (h : LabMid Pend (TT.at self) (P.at self) m) (hst : m.c.state = self) :
     match runSeqArms env inp ch arms m with
@@ -442,7 +446,7 @@ theorem runSeqArms_lab (hlaw : PendLaw env.ops Pend) (htt : TextTypeOk env.tbl T
       rw [runSeqArms_cons_other ch arm rest m hnp]
       exact ih hrest m h hst
 
-theorem afterSeq_lab (hlaw : PendLaw env.ops Pend) (htt : TextTypeOk env.tbl TT = true) (self : StateId)
+theorem afterSeq_lab (hlaw : PendLaw env.ops Pend K) (htt : TextTypeOk env.tbl TT = true) (self : StateId)
     (ch : Option UInt8) (arms : List Arm) (hsub : ∀ a ∈ arms, ArmLab env TT P self a) (m : M κ)
     (h : LabMid Pend (TT.at self) (P.at self) m) (hst : m.c.state = self) :
     LabPost TT P Pend (afterSeq env inp ch arms m) := by
@@ -466,7 +470,7 @@ theorem afterSeq_lab (hlaw : PendLaw env.ops Pend) (htt : TextTypeOk env.tbl TT 
         simp only [LabPost, hs]
         exact (runBody_lab hlaw htt arm self harm m h hst hs).1
 
-theorem dispatch_lab (hlaw : PendLaw env.ops Pend) (htt : TextTypeOk env.tbl TT = true) (self : StateId)
+theorem dispatch_lab (hlaw : PendLaw env.ops Pend K) (htt : TextTypeOk env.tbl TT = true) (self : StateId)
     (ch : Option UInt8) (arms : List Arm) (hsub : ∀ a ∈ arms, ArmLab env TT P self a) (m : M κ)
     (h : LabMid Pend (TT.at self) (P.at self) m) (hst : m.c.state = self) :
     LabPost TT P Pend (dispatch env inp ch arms m) := by
@@ -477,7 +481,7 @@ theorem dispatch_lab (hlaw : PendLaw env.ops Pend) (htt : TextTypeOk env.tbl TT 
   | inr m' => rw [hs] at this; exact afterSeq_lab hlaw htt self ch arms hsub m' this.1 this.2
 
 /-- **The label invariants are kept by every state-function call of a scanner machine.** -/
-theorem stateFn_lab (hlaw : PendLaw env.ops Pend) (htt : TextTypeOk env.tbl TT = true)
+theorem stateFn_lab (hlaw : PendLaw env.ops Pend K) (htt : TextTypeOk env.tbl TT = true)
     (hph : PhaseOk env.tbl P = true) (m : M κ) (h : LabInv TT P Pend m) :
     LabPost TT P Pend (stateFn env inp m) := by
   rw [stateFn_preConsume]
